@@ -273,7 +273,7 @@ class Shapes:
                     continue
                 out.append(w)
             elif k == 'HELPER':
-                if e[1] == 'compact_encode_len_to':
+                if _is_count_helper(e):
                     c = _count_of_helper(e[2])
                     if c is None:
                         out.append(('opaque', 'compact_encode_len_to of unrecognised shape'))
@@ -289,7 +289,7 @@ class Shapes:
                         out.append(el)
                         i = j + used
                         continue
-                elif e[1] == 'encode_slice_no_len':
+                elif _slice_helper_arg(e)[0] is not None:
                     src, ety = _slice_helper_arg(e)
                     if src is None:
                         out.append(('opaque', 'encode_slice_no_len of unrecognised shape'))
@@ -360,7 +360,7 @@ class Shapes:
             return None, 0
         e = its[j]
         cs = sym.vstr(coll)
-        if e[0] == 'HELPER' and e[1] == 'encode_slice_no_len':
+        if e[0] == 'HELPER' and _slice_helper_arg(e)[0] is not None:
             src, ety = _slice_helper_arg(e)
             if src is None:
                 return None, 0
@@ -371,7 +371,7 @@ class Shapes:
             # VecDeque: both halves, in order
             if ss == 'as_slices(%s).0' % cs and j + 1 < len(its):
                 e2 = its[j + 1]
-                if e2[0] == 'HELPER' and e2[1] == 'encode_slice_no_len':
+                if e2[0] == 'HELPER' and _slice_helper_arg(e2)[0] is not None:
                     src2, ety2 = _slice_helper_arg(e2)
                     if src2 is not None and sym.vstr(src2) == 'as_slices(%s).1' % cs and ety2 == ety:
                         return ('seq', ew), 2
@@ -432,6 +432,14 @@ def _byte_shape(v):
             arms.append((d[1] if isinstance(d, tuple) else str(d), ('byte', x[1]) if isinstance(x, tuple) and x[0] == 'lit' else ('opaque', 'computed tag')))
         return ('alt', arms)
     return ('bytex', sym.vstr(v)[:80])
+
+
+def _is_count_helper(e):
+    """an inlined helper whose only output is the Compact<u32> count of a length (compact_encode_len_to)"""
+    if e[0] != 'HELPER' or _count_of_helper(e[2]) is None:
+        return False
+    outs = [x for x in sym.walk(e[2]) if x[0] in ('enc', 'byte', 'write', 'star')]
+    return len(outs) == 1
 
 
 def _count_of_helper(t):
